@@ -1,6 +1,7 @@
 (* modelrun: runs the extracted Coq models on case lines (stdin) and prints one
    result line per case (stdout).  Hand-written glue: trusted base. *)
 open Model
+type string = Stdlib.String.t
 
 (* ---------- conversions ---------- *)
 let rec nat_of_int n = if n <= 0 then O else S (nat_of_int (n - 1))
@@ -103,10 +104,125 @@ let c13 args =
     "model=" ^ hex_of_str (encode (str_of_hex h))
   | _ -> fail_line "C13 args"
 
+(* ---------- router family: S (spec) and R (request) lines ---------- *)
+let kv_of_args args =
+  List.filter_map (fun a ->
+      match String.index_opt a '=' with
+      | Some i -> Some (String.sub a 0 i, String.sub a (i + 1) (String.length a - i - 1))
+      | None -> None) args
+
+let parse_reqs (t : string) =
+  (* "e" = empty list; alternatives separated by '|', schemes by '+' *)
+  if t = "e" then [] else
+    List.map (fun alt -> List.map str_of_string (split_on '+' alt)) (split_on '|' t)
+
+let parse_hexlist t = if t = "-" then [] else List.map str_of_hex (split_on '.' t)
+
+let parse_rspec (kv : (string * string) list) : rspec =
+  let g k = List.assoc k kv in
+  let schemes =
+    if g "schemes" = "-" then [] else
+    List.map (fun e ->
+        match String.split_on_char ':' e with
+        | [n; kind; prm] ->
+          let k = (match kind with
+              | "bearer" -> KBearer
+              | "keyheader" -> KKeyHeader (str_of_hex prm)
+              | "keyquery" -> KKeyQuery (str_of_hex prm)
+              | _ -> KUnsupported) in
+          (str_of_string n, k)
+        | _ -> failwith "scheme") (split_on ',' (g "schemes")) in
+  let parse_op o =
+    match String.split_on_char '/' o with
+    | [m; sec; hdrs] ->
+      { r_method = str_of_string m;
+        r_security = (if sec = "i" then None else Some (parse_reqs sec));
+        r_headers = parse_hexlist hdrs }
+    | _ -> failwith "op" in
+  let parse_path p =
+    match String.split_on_char '~' p with
+    | [raw; hdrs; ops] ->
+      { p_raw = str_of_hex raw; p_headers = parse_hexlist hdrs;
+        p_ops = List.map parse_op (split_on '&' ops) }
+    | _ -> failwith "path" in
+  { s_flag_base = str_of_hex (g "flag");
+    s_server_path = (if g "srv" = "none" then None else Some (str_of_hex (g "srv")));
+    s_paths = (if g "paths" = "-" then [] else List.map parse_path (split_on ';' (g "paths")));
+    s_schemes = schemes;
+    s_global = (if g "global" = "none" then None else Some (parse_reqs (g "global")));
+    s_cors = (g "cors" = "1");
+    s_spec_name = str_of_hex (g "name") }
+
+let parse_policy p =
+  if p = "nil" then PNil else if p = "none" then PNone else if p = "any" then PAny
+  else if String.length p > 4 && String.sub p 0 4 = "acc:" then PAccept (str_of_hex (String.sub p 4 (String.length p - 4)))
+  else failwith ("policy " ^ p)
+
+let parse_cfg (c : string) : api_cfg =
+  let kv = if c = "-" then [] else kv_of_args (split_on ',' c) in
+  let geti k d = (try int_of_string (List.assoc k kv) with Not_found -> d) in
+  let getb k = (try List.assoc k kv = "1" with Not_found -> false) in
+  let dflt = (try parse_policy (List.assoc "authdflt" kv) with Not_found -> PNone) in
+  let maxidx = List.fold_left (fun m (k, _) ->
+      if String.length k > 5 && String.sub k 0 5 = "auth." then max m (int_of_string (String.sub k 5 (String.length k - 5))) else m) (-1) kv in
+  let hooks = List.init (maxidx + 1) (fun i ->
+      try parse_policy (List.assoc ("auth." ^ string_of_int i) kv) with Not_found -> dflt) in
+  { c_mw = nat_of_int (geti "mw" 0); c_nf = getb "nf"; c_sf = getb "sf"; c_cors = getb "cors";
+    c_hooks = hooks; c_dflt = dflt }
+
+let parse_pairs sep h =
+  (* hex of "k<sep>v\n" lines *)
+  if h = "-" then [] else
+    List.filter_map (fun l ->
+        if l = "" then None else
+          match String.index_opt l sep with
+          | Some i -> Some (str_of_string (String.sub l 0 i), str_of_string (String.sub l (i + 1) (String.length l - i - 1)))
+          | None -> None) (String.split_on_char '\n' (unhex h))
+
+let string_of_event ?(auth = true) ?(sortcors = false) (e : event) : string option =
+  let join l = String.concat "," (List.map string_of_str l) in
+  match e with
+  | Enter (i, sp) -> Some (Printf.sprintf "E%d(%s)" (int_of_nat i) (hex_of_str sp))
+  | Leave i -> Some (Printf.sprintf "L%d" (int_of_nat i))
+  | Auth (i, tok, ok) -> if auth then Some (Printf.sprintf "A%d(%s)=%s" (int_of_nat i) (hex_of_str tok) (if ok then "ok" else "no")) else None
+  | HandlerEv (m, raw, tag) ->
+    Some (Printf.sprintf "H%s:%s[%s]" (string_of_str m) (hex_of_str raw)
+            (match tag with Some i -> string_of_int (int_of_nat i) | None -> "-"))
+  | NotFoundEv -> Some "NF"
+  | SpecFileEv -> Some "SF"
+  | CorsEv (ms, hs) ->
+    let hs' = if sortcors then List.sort_uniq compare (List.map string_of_str hs) else List.map string_of_str hs in
+    let hx s = if s = "" then "-" else hex s in
+    Some (Printf.sprintf "CORS(%s;%s)" (hx (join ms)) (hx (String.concat "," hs')))
+
+let string_of_outcome ?(auth = true) ?(sortcors = false) (o : outcome) =
+  let evs = List.filter_map (string_of_event ~auth ~sortcors) o.trace in
+  Printf.sprintf "%d|%s" (int_of_nat o.status) (if evs = [] then "-" else String.concat ";" evs)
+
+let specs : (string, rspec) Hashtbl.t = Hashtbl.create 64
+
+let s_line args =
+  match args with
+  | pkg :: rest -> Hashtbl.replace specs pkg (parse_rspec (kv_of_args rest)); "SKIP spec"
+  | _ -> fail_line "S args"
+
+(* R <pkg> <cfg> <METHOD> <hexurl> <hexheaders> <hexbody> <hexpath> <hexquery> *)
+let r_line args =
+  match args with
+  | [pkg; cfg; m; _url; hdrs; _body; path; query] ->
+    let s = (try Hashtbl.find specs pkg with Not_found -> failwith ("no spec " ^ pkg)) in
+    let rq = { q_method = str_of_string m; q_path = str_of_hex path;
+               q_query = parse_pairs '=' query; q_headers = parse_pairs ':' hdrs } in
+    let c = parse_cfg cfg in
+    "model=" ^ string_of_outcome (serve s c rq) ^ " spec=" ^ string_of_outcome ~auth:false ~sortcors:true (serve_spec s c rq)
+  | _ -> fail_line "R args"
+
 let dispatch line =
   match String.split_on_char ' ' line with
   | "C19" :: args -> c19 args
   | "C13" :: args -> c13 args
+  | "S" :: args -> s_line args
+  | "R" :: args -> r_line args
   | _ -> fail_line ("unknown case: " ^ line)
 
 let () =
